@@ -156,7 +156,12 @@ Fixpoint run_steps (e : env) (dump_each : bool) (dump_end : bool) (sv : server) 
       match st with
       | SEntry en =>
           match apply_entry e sv en with
-          | OOk sv' out => show_step "ok" out (d sv') :: run_steps e dump_each dump_end sv' rest
+          | OOk sv' out =>
+              let oc := match en with
+                        | EMessage _ _ session cmid _ _ => if is_retry (session, 0%N) cmid sv then "dup" else "ok"
+                        | _ => "ok"
+                        end in
+              show_step oc out (d sv') :: run_steps e dump_each dump_end sv' rest
           | OSessionLimit sv' => show_step "err=sessionlimit" [] (d sv') :: run_steps e dump_each dump_end sv' rest
           | OSkip sv' => show_step "skip" [] (d sv') :: run_steps e dump_each dump_end sv' rest
           | OPanic site => stop ("panic=" ++ hx site ++ " inv=- n=0")
